@@ -58,6 +58,8 @@ class _Facts(Client):
     def __init__(self, eng, f):
         self.eng, self.db, self.f = eng, eng.db, f
         self.alias = {}          # var decl id -> (key, offset)   value == size(key) + offset
+        self.alias0 = {}         # the same for variables modified later: holds from the declaration until the first modification on the path
+        self._st = tuple()
         self.sites = []          # (node, key, need, proved)
         self.calls = []          # (node, callee Func, arg index, key or None, lo)
         self._collect_aliases()
@@ -94,6 +96,14 @@ class _Facts(Client):
             a = self._affine(vals[0], self.alias)
             if a is not None:
                 self.alias[vid] = a
+        # declared as size()+c and modified later (`--len` after the guards): an alias until the modification (flow-sensitive, see stmt)
+        decl_ids = {x["id"] for x in walk(self.f.body) if x.get("kind") == "VarDecl" and "id" in x}
+        for vid, vals in assigns.items():
+            if vid in self.alias or vid not in decl_ids or len(vals) < 2 or vals[0] is None:
+                continue
+            a = self._affine(vals[0], self.alias)
+            if a is not None:
+                self.alias0[vid] = a
 
     def _affine(self, e, alias):
         """(key, offset) if e == size(key) + offset."""
@@ -106,6 +116,10 @@ class _Facts(Client):
             return (key, 0)
         if k == "DeclRefExpr" and e.get("referencedDecl", {}).get("id") in alias:
             return alias[e["referencedDecl"]["id"]]
+        if k == "DeclRefExpr" and alias is self.alias and e.get("referencedDecl", {}).get("id") in self.alias0:
+            vid = e["referencedDecl"]["id"]
+            if ("!k%s" % vid) not in dict(self._st):
+                return self.alias0[vid]
         if k == "BinaryOperator" and e.get("opcode") in ("-", "+"):
             a = self._affine(kids(e)[0], alias)
             c = _u(kids(e)[1])
@@ -117,7 +131,9 @@ class _Facts(Client):
     # -- lattice -------------------------------------------------------------
     def join(self, a, b):
         da, db_ = dict(a), dict(b)
-        return tuple(sorted((k, min(da[k], db_[k])) for k in da if k in db_))
+        out = [(k, min(da[k], db_[k])) for k in da if k in db_ and not k.startswith("!k")]
+        out += [(k, 1) for k in set(da) | set(db_) if k.startswith("!k")]          # "modified on some path" is a may-fact: union
+        return tuple(sorted(out))
 
     @staticmethod
     def _set(st, key, lo):
@@ -132,6 +148,7 @@ class _Facts(Client):
     # -- conditions ---------------------------------------------------------------
     def cond_atom(self, e, st):
         st = self.stmt(e, st)
+        self._st = st
         e0 = _u(e)
         k = e0.get("kind")
         # X.empty()
@@ -247,6 +264,26 @@ class _Facts(Client):
         return None
 
     def stmt(self, node, st):
+        self._st = st
+        if self.alias0:
+            for x in walk(node):
+                tgt = None
+                if x.get("kind") == "VarDecl" and x.get("id") in self.alias0:
+                    st = tuple(kv for kv in st if kv[0] != "!k%s" % x["id"])          # (re-)declared: the alias holds again
+                    self._st = st
+                elif x.get("kind") in ("BinaryOperator", "CompoundAssignOperator") and x.get("opcode", "").endswith("=") and \
+                        x.get("opcode") not in ("==", "!=", "<=", ">="):
+                    tgt = _u(kids(x)[0])
+                elif x.get("kind") == "UnaryOperator" and x.get("opcode") in ("++", "--"):
+                    tgt = _u(kids(x)[0])
+                if tgt is not None and tgt.get("kind") == "DeclRefExpr" and tgt.get("referencedDecl", {}).get("id") in self.alias0:
+                    kill = "!k%s" % tgt["referencedDecl"]["id"]
+                    after = tuple(sorted(set(st) | {(kill, 1)}))
+                    # sites of this very statement are judged with the alias still in force; the kill applies from the next one on
+                    return self._stmt_sites(node, st) and after or after
+        return self._stmt_sites(node, st)
+
+    def _stmt_sites(self, node, st):
         for x in walk(node):
             nd = self._need(x)
             if nd:
@@ -504,6 +541,132 @@ def rule_int64_product(db, chk, cfg, rule="INT64.product", lib_only=True):
                                   "overflows for magnitudes far below the supported range (undefined behaviour and scale-dependent results); "
                                   "the library forms such products in double or __int128" % (canon(x)[:60], t), where(x), cfg=cfg)
     chk.instance(rule, {"multiplications_inspected": n, "cfg": cfg}, n=max(n, 1))
+    return n
+
+
+WIDE = re.compile(r'__int128|__uint128_t|__int128_t')
+
+
+def rule_wide_kept(db, chk, cfg, rule="TYPE.wide-kept", lib_only=True):
+    """A product formed in a 128-bit integer is compared as such: no conversion (implicit at a call or an initialisation, or explicit)
+    takes a 128-bit value to a narrower arithmetic type - the exact predicates are only exact while every bit of the product takes
+    part in the comparison."""
+    n = 0
+    for f in db.funcs:
+        if f.is_pattern or not f.file or f.body is None:
+            continue
+        if lib_only and not ("/clipper2/" in f.file or "/Clipper2Lib/src/" in f.file):
+            continue
+        for x in walk(f.body):
+            if not x.get("castKind"):
+                continue
+            ks = kids(x)
+            if not ks:
+                continue
+            src = dqt(ks[0]) or ""
+            if not WIDE.search(src):
+                continue
+            n += 1
+            dst = dqt(x) or ""
+            ck = x.get("castKind")
+            ok = WIDE.search(dst) is not None or ck in ("LValueToRValue", "NoOp", "IntegralToBoolean")
+            chk.instance(rule, {"function": f.qual, "expr": canon(x)[:60], "from": src, "to": dst, "cast": ck, "cfg": cfg} if not ok else None, ok=ok)
+            if not ok:
+                chk.violation(rule, f.qual, canon(ks[0])[:40],
+                              "`%s` of the 128-bit type %s is converted to %s (%s): the upper bits of the product are dropped, so the comparison is "
+                              "wrong as soon as the value leaves the narrower range" % (canon(ks[0])[:60], src, dst, ck), where(x), cfg=cfg)
+    return n
+
+
+OUT_ALGOS = {"transform": 2, "copy": 2, "copy_if": 2, "move": 2, "copy_n": 2, "replace_copy": 2, "reverse_copy": 2, "rotate_copy": 3,
+             "unique_copy": 2, "partial_sum": 2, "adjacent_difference": 2}
+
+
+def rule_dest_sized(db, chk, cfg, rule="DEST.sized", lib_only=True):
+    """Standard algorithms that write through an output iterator do not grow their destination.  Every such call in the library either
+    appends (back_inserter / inserter), or writes to `X.begin()` of a local X that was constructed with the *source range's own size*:
+    X(S.size()), or X(n) with n a never-reassigned local initialised from S.size(), S being the container whose begin()/end() delimit
+    the input.  Anything else writes past the end of X as soon as the source is the longer one."""
+    n = 0
+    for f in db.funcs:
+        if f.is_pattern or not f.file or f.body is None:
+            continue
+        if lib_only and not ("/clipper2/" in f.file or "/Clipper2Lib/src/" in f.file):
+            continue
+        for c in walk(f.body):
+            if c.get("kind") != "CallExpr":
+                continue
+            name = db.callee(c)[0]
+            if name not in OUT_ALGOS:
+                continue
+            args = db.call_args(c)
+            di = OUT_ALGOS[name]
+            if len(args) <= di:
+                continue
+            first = canon(args[0])
+            m0 = re.match(r'^(.*)\.c?r?begin\(\)$', first)
+            if name == "move" and m0 is None:
+                continue                       # std::move(x), the cast
+            n += 1
+            dest = strip(args[di])
+            dtxt = canon(dest)
+            ok, why = False, ""
+            if re.match(r'^(std::)?(back_inserter|inserter|front_inserter)\(', dtxt) or "insert_iterator" in (dqt(dest) or ""):
+                ok = True
+            else:
+                m = re.match(r'^(\w+)\.begin\(\)$', dtxt)
+                src = m0.group(1) if m0 else None
+                if m and src:
+                    decl = None
+                    ids = [y.get("referencedDecl", {}).get("id") for y in walk(dest) if y.get("kind") == "DeclRefExpr"
+                           and y.get("referencedDecl", {}).get("name") == m.group(1)]
+                    for x in walk(f.body):
+                        if x.get("kind") == "VarDecl" and x.get("id") in ids:
+                            decl = x
+                    if decl is not None:
+                        init = [k for k in kids(decl) if isinstance(k, dict) and k.get("kind")]
+                        ctor = None
+                        for k in (walk(init[-1]) if init else ()):
+                            if k.get("kind") in ("CXXConstructExpr", "CXXTemporaryObjectExpr"):
+                                ctor = k
+                                break
+                        cargs = [a for a in (kids(ctor) if ctor else []) if isinstance(a, dict) and a.get("kind") and a.get("kind") != "CXXDefaultArgExpr"]
+                        if len(cargs) >= 1:
+                            sz = canon(cargs[0])
+                            want = "%s.size()" % src
+                            if sz == want:
+                                ok = True
+                            else:
+                                # a local never written after its initialisation from S.size()
+                                v = strip(cargs[0])
+                                if v.get("kind") == "DeclRefExpr":
+                                    vid = v.get("referencedDecl", {}).get("id")
+                                    vd = db.by_id.get(vid)
+                                    vinit = [k for k in kids(vd) if isinstance(k, dict) and k.get("kind")] if vd else []
+                                    written = any((y.get("kind") in ("BinaryOperator", "CompoundAssignOperator") and y.get("opcode", "").endswith("=")
+                                                   and y.get("opcode") not in ("==", "!=", "<=", ">=")
+                                                   and strip(kids(y)[0]).get("referencedDecl", {}).get("id") == vid) or
+                                                  (y.get("kind") == "UnaryOperator" and y.get("opcode") in ("++", "--")
+                                                   and strip(kids(y)[0]).get("referencedDecl", {}).get("id") == vid) for y in walk(f.body))
+                                    if vinit and canon(vinit[-1]) == want and not written:
+                                        ok = True
+                                    else:
+                                        why = "its size `%s` is %s, not %s" % (sz, ("`%s`" % canon(vinit[-1])[:40]) if vinit else "unknown",
+                                                                               want) + (" (and is modified later)" if written else "")
+                                else:
+                                    why = "it is constructed with size `%s`, not `%s`" % (sz[:40], want)
+                        else:
+                            why = "it is not constructed with a size"
+                    else:
+                        why = "its declaration is not a local of this function"
+                else:
+                    why = "the destination is neither an inserter nor begin() of a local container"
+            chk.instance(rule, {"function": f.qual, "call": canon(c)[:70], "cfg": cfg}, ok=ok)
+            if not ok:
+                chk.violation(rule, f.qual, "%s|%s" % (name, dtxt[:30]),
+                              "std::%s writes %s element(s) of `%s` to `%s`, but %s: the write runs past the end of the destination when the "
+                              "source is longer" % (name, "the", first[:40].replace(".cbegin()", "").replace(".begin()", ""), dtxt[:40], why),
+                              where(c), cfg=cfg)
     return n
 
 
